@@ -423,3 +423,23 @@ Qed.
 
 Lemma rf_wf_example : rf_wf (mkRF 0 3 1 4 1 3 1200).
 Proof. unfold rf_wf. simpl. lia. Qed.
+
+(** QUICMultiDatagramFrames.BuildForDatagram: which error. Either the spec list is empty (class 7),
+    or it is the error of the entry selected for the datagram: the class of its failed bounds
+    check, or — bounds fine — the randomness source's failure. *)
+Lemma md_build_error_class specs idx data base bs us c :
+  Forall rf_wf specs -> 0 <= idx -> 0 <= base -> base + zlen data <= maxVarInt8 ->
+  md_build specs idx data base bs us = Err c ->
+  (specs = [] /\ c = 7) \/
+  exists p, In p specs /\ (check_bounds p = Err c \/ (check_bounds p = Ok tt /\ (c = 6 \/ c = 90))).
+Proof.
+  intros Hwf Hidx Hb Hmax H. unfold md_build in H. destruct specs as [|s0 r]; [left; inversion H; auto|right].
+  set (i := if zlen (s0 :: r) <=? idx then zlen (s0 :: r) - 1 else idx) in *.
+  assert (Hi : 0 <= i < zlen (s0 :: r)).
+  { unfold i. pose proof (zlen_nonneg r). destruct (Z.leb_spec (zlen (s0 :: r)) idx); unfold zlen in *; simpl length in *; lia. }
+  destruct (Z.ltb_spec i 0); [lia|].
+  assert (Hin : In (nth (Z.to_nat i) (s0 :: r) s0) (s0 :: r)) by (apply nth_In; unfold zlen in Hi; lia).
+  exists (nth (Z.to_nat i) (s0 :: r) s0). split; [assumption|].
+  rewrite Forall_forall in Hwf.
+  pose proof (build_internal_exact _ data base bs us (Hwf _ Hin) Hb Hmax) as Hex. rewrite H in Hex. exact Hex.
+Qed.
